@@ -329,8 +329,23 @@ def impl_result(hout):
     return hout.split(" || ")[0]
 
 
+def plain_of(line):
+    """history ops (`stripsh modeA modeB A -- B`, `buildmeshh A -- B`, `buildpch A -- B`: ONE object of the class
+    used for A and then for B) are judged as the plain op on their last input"""
+    t = line.split()
+    if not t or "--" not in t:
+        return None
+    rest = " ".join(t[t.index("--") + 1:])
+    if t[0] == "stripsh":
+        return f"strips {t[2]} {rest}"
+    if t[0] == "buildmeshh":
+        return f"buildmesh {rest}"
+    if t[0] == "buildpch":
+        return f"buildpc {rest}"
+    return None
+
+
 def as_line(case):
-    """history ops (`stripsh modeA modeB A -- B`) are judged as the plain op on their last geometry"""
     return getattr(case, "plain_line", None) or case.op
 
 
@@ -348,7 +363,7 @@ def oracle(hout, case):
     if hout in ("invalid-input", "bad-op"):
         return ("c14-generator-invalid-input", f"the harness refused `{_short(case.op)}`: {hout}")
     parts = hout.split(" || ")
-    dedups = op in ("dedupv", "dedupp", "dedupvp") or op == "buildmesh" or (op == "buildpc" and case.op.split()[2] == "1")
+    dedups = op in ("dedupv", "dedupp", "dedupvp") or op == "buildmesh" or (op == "buildpc" and as_line(case).split()[2] == "1")
     if dedups and hout != "null":
         if len(parts) < 2:
             return ("c14-malformed-output", f"`{_short(case.op)}` -> {_short(hout)}")
@@ -409,6 +424,7 @@ def strict_tag(mout):
 
 def make_case(line, tags=(), flavour="plain"):
     c = Case(line, oracle=oracle, expect=expect, tags=tags, flavour=flavour)
+    c.plain_line = plain_of(line)
     c.model = model_line(c)
     c.spec = spec
     c.mtag = strict_tag
@@ -652,10 +668,7 @@ def generate(rng, tier):
         if not ga.faces or not gb.faces:
             continue
         ma, mb = rng.randrange(2), rng.randrange(2)
-        c = make_case(f"stripsh {ma} {mb} {ga.to_text()} -- {gb.to_text()}", ("strips_history",))
-        c.plain_line = f"strips {mb} {gb.to_text()}"
-        c.model = model_line(c)
-        cases.append(c)
+        cases.append(make_case(f"stripsh {ma} {mb} {ga.to_text()} -- {gb.to_text()}", ("strips_history",)))
     # --- builders
     for _ in range(150 * mult):
         line, tags = mesh_builder_line(rng, size())
@@ -663,6 +676,17 @@ def generate(rng, tier):
     for _ in range(120 * mult):
         line, tags = cloud_builder_line(rng, size())
         add(line, {"buildpc"} | tags)
+    # --- histories: ONE builder object, Start … Finalize for A, then Start … Finalize for B (the MultiUse pattern of
+    # point_cloud_builder_test.cc); B is judged like the result of a fresh object. A is mostly larger than B and
+    # has other attributes, so that anything kept from the first use would show.
+    for _ in range(60 * mult):
+        la, _t = mesh_builder_line(rng, rng.choice([3, 8, 20, 40]))
+        lb, tags = mesh_builder_line(rng, rng.choice([1, 2, 5, 12, 30]))
+        add(f"buildmeshh {la.split(' ', 1)[1]} -- {lb.split(' ', 1)[1]}", {"buildmesh_history"} | tags)
+    for _ in range(60 * mult):
+        la, _t = cloud_builder_line(rng, rng.choice([3, 8, 20, 40]))
+        lb, tags = cloud_builder_line(rng, rng.choice([1, 2, 5, 12, 30]))
+        add(f"buildpch {la.split(' ', 1)[1]} -- {lb.split(' ', 1)[1]}", {"buildpc_history"} | tags)
     # the smallest failing input is reported first
     cases.sort(key=lambda c: len(c.op))
     return cases
@@ -673,10 +697,5 @@ def replay_cases(lines):
     out = []
     for l in lines:
         for fl in ("plain", "asan"):
-            c = make_case(l, tags=("replay", fl), flavour=fl)
-            t = l.split()
-            if t and t[0] == "stripsh" and "--" in t:
-                c.plain_line = f"strips {t[2]} " + " ".join(t[t.index("--") + 1:])
-                c.model = model_line(c)
-            out.append(c)
+            out.append(make_case(l, tags=("replay", fl), flavour=fl))
     return out
